@@ -165,7 +165,9 @@ func debugf(format string, args ...any) {
 }
 
 // confirmOutstanding lets every oracle of `who` confirm, with a real signature of its external key over the
-// real checkpoint, every not yet slashed oracle-set request created at or after the height it joined.
+// real checkpoint, every not yet slashed oracle-set request it is a MEMBER of (requests list the oracles that were
+// online when they were created, i.e. those that had joined by then).  Deliberately not decided from the record's
+// StartHeight: that field is what the code under test maintains.
 func (a *Adapter) confirmOutstanding(ctx sdk.Context, who map[string]bool) {
 	extName := map[string]string{}
 	for _, e := range a.Exts {
@@ -191,7 +193,13 @@ func (a *Adapter) confirmOutstanding(ctx sdk.Context, who map[string]bool) {
 		priv, err := a.extKey(e).PrivKey().(*ethsecp256k1.PrivKey).ToECDSA()
 		must(err)
 		for _, s := range sets {
-			if s.Height < uint64(or.StartHeight) || a.K.GetOracleSetConfirm(ctx, s.Nonce, or.GetOracle()) != nil {
+			member := false
+			for _, m := range s.Members {
+				if m.ExternalAddress == or.ExternalAddress {
+					member = true
+				}
+			}
+			if !member || a.K.GetOracleSetConfirm(ctx, s.Nonce, or.GetOracle()) != nil {
 				continue
 			}
 			checkpoint, err := s.GetCheckpoint(a.K.GetGravityID(ctx))
@@ -501,10 +509,25 @@ func (a *Adapter) Project(ctx sdk.Context) any {
 		bal[o], orew[o] = q, !r.IsZero()
 	}
 	burned := whole(a.supply0.Sub(bank.GetSupply(ctx, fxtypes.DefaultDenom).Amount))
+	// outstanding (not yet slashed) oracle-set requests and who joined after all of them
+	obj, newest := false, uint64(0)
+	a.K.IterateOracleSetByNonce(ctx, a.K.GetLastSlashedOracleSetNonce(ctx)+1, func(s *types.OracleSet) bool {
+		obj = true
+		if s.Height > newest {
+			newest = s.Height
+		}
+		return false
+	})
+	late := map[string]bool{}
+	for _, o := range a.Oracles {
+		or, found := records[o]
+		late[o] = found && obj && uint64(or.StartHeight) > newest
+	}
 	return map[string]any{
 		"reg": reg, "online": online, "approved": approved, "bridger": bridger, "ext": ext, "val": val, "rec": rec,
 		"slashTimes": slashTimes, "bidx": bidx, "eidx": eidx, "deleg": deleg, "stray": stray, "unb": unb, "dbal": dbal,
 		"bal": bal, "redelTo": redelTo, "pend": pend, "drew": drew, "orew": orew, "burned": burned, "alien": alien, "odd": odd,
+		"obj": obj, "late": late,
 	}
 }
 
